@@ -5,6 +5,7 @@ package main
 // fabricated key tuples and row ids, records every call's outcome and the pins it left behind.
 
 import (
+	"github.com/ryogrid/SamehadaDB/lib/samehada/samehada_util"
 	"fmt"
 	"math"
 	"runtime"
@@ -104,6 +105,18 @@ type idxEnv struct {
 	keys []types.Value
 	sch  interface{}
 	q    int
+	ff   map[int]bool // key ranks whose order-preserving encoding starts with ff ff (KF-C17-btree-ffff-stopper)
+}
+
+func ffKeyRanks(keys []types.Value) map[int]bool {
+	out := map[int]bool{}
+	for i := range keys {
+		b := samehada_util.EncodeValueAndRIDToDicOrderComparableVarchar(&keys[i], &page.RID{}).SerializeOnlyVal()
+		if len(b) >= 2 && b[0] == 0xff && b[1] == 0xff {
+			out[i] = true
+		}
+	}
+	return out
 }
 
 func ridOf(n int) page.RID { return page.RID{PageID: types.PageID(1000 + n/40), SlotNum: uint32(n % 40)} }
@@ -117,6 +130,12 @@ func (x *idxEnv) keyTuple(rank int) *tuple.Tuple {
 
 func (x *idxEnv) call(ev map[string]interface{}, f func()) {
 	ev["kind"], ev["ktype"], ev["q"] = x.kind, x.typ, x.q
+	if k, ok := ev["k"].(int); ok && x.ff[k] {
+		ev["ffk"] = true
+	}
+	if k, ok := ev["k2"].(int); ok && x.ff[k] {
+		ev["ffk"] = true
+	}
 	wd := time.AfterFunc(40*time.Second, func() {
 		ev["res"] = "hang"
 		ev["ctx"] = "C17"
@@ -213,6 +232,7 @@ func idxDriver(args []string) error {
 		}
 		x := &idxEnv{s: s, t: t, kind: kind, typ: typ, keys: buildKeyTab(typ, long), q: q}
 		x.idx = s.e.Catalog().GetTableByName(t.name).GetIndex(0)
+		x.ff = ffKeyRanks(x.keys)
 		live := map[int]int{} // rid id -> key rank
 		byKey := map[int][]int{}
 		nextRid := 0
@@ -330,6 +350,45 @@ func idxDriver(args []string) error {
 			}
 		}
 		probes()
+		// bulk phase: several hundred entries under a few keys (multi-level trees, long duplicate runs), a mass
+		// removal, new entries, then the removed (key, row id) pairs come back - what a rollback of a big DELETE does
+		if kind != "uniq" && q%2 == 1 && !s.dead {
+			hot := []int{0, 7, 21, 35, nKeys - 1}
+			type pr struct{ k, r int }
+			batch := []pr{}
+			nb := 250 + rng.Intn(350)
+			for i := 0; i < nb && !s.dead; i++ {
+				k := hot[rng.Intn(len(hot))]
+				r := nextRid
+				add(k)
+				if _, ok := live[r]; ok {
+					batch = append(batch, pr{k, r})
+				}
+			}
+			probes()
+			rng.Shuffle(len(batch), func(i, j int) { batch[i], batch[j] = batch[j], batch[i] })
+			gone := batch[:len(batch)*3/4]
+			for _, p := range gone {
+				if s.dead {
+					break
+				}
+				del(p.r)
+			}
+			probes()
+			for i := 0; i < 60 && !s.dead; i++ {
+				add(hot[rng.Intn(len(hot))])
+			}
+			for i := len(gone) - 1; i >= 0 && !s.dead; i-- {
+				p := gone[i]
+				ev := map[string]interface{}{"ev": "MInsert", "k": p.k, "r": p.r}
+				x.call(ev, func() { x.idx.InsertEntry(x.keyTuple(p.k), ridOf(p.r), nil) })
+				if ev["res"] == "ok" {
+					live[p.r] = p.k
+					byKey[p.k] = append(byKey[p.k], p.r)
+				}
+			}
+			probes()
+		}
 	}
 	return tw.Close()
 }
